@@ -70,6 +70,12 @@ pub struct Case {
     /// which epoch's online keys sign timestamp/snapshot/targets (monotone map; u16::MAX = last)
     pub online_epoch: u16,
     pub expired_intermediates: bool,
+    /// before the cycle under test, run one cycle on the same datastore against the repository as
+    /// it was when the root of `online_epoch` was the newest one (same timestamp / snapshot /
+    /// targets files): whatever that cycle stored was verified under keys that may since have
+    /// been revoked
+    #[serde(default)]
+    pub prior_cycle: bool,
 }
 
 struct Alloc {
@@ -177,6 +183,8 @@ pub struct Plan {
     shipped_version: u64,
     shipped_doc: RootDoc,
     online_epoch: usize,
+    /// version -> the document the repository owner intended (unbroken chain, unexpired or not as generated)
+    intended: std::collections::BTreeMap<u64, RootDoc>,
 }
 
 pub fn plan(case: &Case) -> Plan {
@@ -275,7 +283,8 @@ pub fn plan(case: &Case) -> Plan {
         let r = &shipped_doc.root;
         shipped_doc.signers = r.keys.iter().take(r.threshold as usize - 1).copied().collect();
     }
-    Plan { epochs, served, shipped_version: shipped_idx as u64 + 1, shipped_doc, online_epoch }
+    let intended = docs.iter().enumerate().map(|(i, d)| (i as u64 + 1, d.clone())).collect();
+    Plan { epochs, served, shipped_version: shipped_idx as u64 + 1, shipped_doc, online_epoch, intended }
 }
 
 #[derive(Debug, Clone, PartialEq)]
@@ -421,7 +430,30 @@ pub fn prop(case: &Case) -> Outcome {
         mem.set_meta(&format!("{file}.root.json"), Resp::body(root_bytes(d, case.consistent)));
     }
     let shipped = root_bytes(&p.shipped_doc, case.consistent);
-    let res = forge::load(&mem, &shipped, &LoadOpts::default());
+    let store = tempfile::tempdir().expect("tempdir");
+    let opts = LoadOpts { datastore: Some(store.path().to_path_buf()), ..Default::default() };
+    if case.prior_cycle {
+        // the repository as a client saw it while root `online_epoch + 1` was the newest: only the
+        // intended (unbroken) roots up to that version exist
+        let mem0 = MemTransport::new();
+        for (f, b) in &built.meta {
+            if !f.ends_with(".root.json") {
+                mem0.set_meta(f, Resp::body(b.clone()));
+            }
+        }
+        let upto = p.online_epoch as u64 + 1;
+        for (file, d) in &p.intended {
+            if *file <= upto {
+                mem0.set_meta(&format!("{file}.root.json"), Resp::body(root_bytes(d, case.consistent)));
+            }
+        }
+        let start = p.shipped_version.min(upto);
+        let r0 = forge::load(&mem0, &root_bytes(&p.intended[&start], case.consistent), &opts);
+        if r0.is_ok() {
+            o.label("prior-cycle-stored-state");
+        }
+    }
+    let res = forge::load(&mem, &shipped, &opts);
     let reqs: Vec<u64> = mem
         .meta_requests()
         .iter()
@@ -485,10 +517,11 @@ fn case_strategy() -> impl Strategy<Value = Case> {
         prop_oneof![3 => Just(0u16), 2 => any::<u16>()],
         prop::option::weighted(0.5, (any::<u16>(), broken())),
         prop::bool::weighted(0.08),
-        prop_oneof![3 => Just(u16::MAX), 1 => any::<u16>()],
+        prop_oneof![2 => Just(u16::MAX), 1 => any::<u16>()],
         prop::bool::weighted(0.3),
+        prop::bool::weighted(0.4),
     )
-        .prop_map(|(consistent, n, t, hops, shipped, broken, bad, online_epoch, exp)| Case {
+        .prop_map(|(consistent, n, t, hops, shipped, broken, bad, online_epoch, exp, prior_cycle)| Case {
             consistent,
             initial_root_keys: n,
             initial_root_threshold: t,
@@ -498,6 +531,7 @@ fn case_strategy() -> impl Strategy<Value = Case> {
             shipped_bad_self: bad,
             online_epoch,
             expired_intermediates: exp,
+            prior_cycle,
         })
 }
 
@@ -531,6 +565,7 @@ fn grid() -> Vec<Case> {
                             shipped_bad_self: false,
                             online_epoch: u16::MAX,
                             expired_intermediates: false,
+                            prior_cycle: false,
                         });
                     }
                 }
@@ -565,6 +600,7 @@ pub fn check(ctx: &Ctx) -> Vec<PartReport> {
                 ("expect-fail", n as u64 / 20),
                 ("expect-fail-or-stop", n as u64 / 20),
                 ("online-non-final-epoch", n as u64 / 30),
+                ("prior-cycle-stored-state", n as u64 / 20),
                 ("shipped-later-version", n as u64 / 20),
                 ("hops:4", n as u64 / 20),
             ],
